@@ -159,6 +159,7 @@ func writeListOrArray(e *Encoder, d *decodeState, ifWriteTag bool, tagName strin
 	var count int
 	e2 := NewEncoder(&buf)
 	start := d.readIndex()
+	tagType = TagList // unless it turns out to be a TAG_X_Array below
 
 	switch d.opcode {
 	case scanBeginLiteral:
